@@ -1,8 +1,901 @@
-//! `tablefmt` driver (stub; see DESIGN.md).
+//! `tablefmt` driver (C13, "table files give back exactly what was put in"): builds REAL table
+//! files with `raindb::verif::build_table` on a SimFs from generated sorted runs, opens them with
+//! the real reader (`VTable`) and records everything that comes back.  The trace is judged by
+//! `spec/RainTable_Trace.tla` with the operators of `spec/RainTable.tla`; this driver never
+//! decides anything itself (exception: BigCheck digests, see below).
+//!
+//! Trace vocabulary (ndjson, one line per event; key / value ids, 0-free):
+//!
+//!   Reset    {run, seed, tag:"", nk, driver:"tablefmt"}     first event of every run
+//!   Table    {block, n, ok, big, err, ents:[[k,s,o,v]...]}  a table was built from this sorted
+//!                                                           run with max_block_size = block and
+//!                                                           opened (ok = both succeeded)
+//!   IterFwd  {ok, res:[[k,s,o,v]...]}     seek_to_first + next* until not valid
+//!   IterBwd  {ok, res:[[k,s,o,v]...]}     seek_to_last + prev* until not valid
+//!   Seeks    {ok, list:[[k,s, rk,rs,ro,rv]...]}   fresh cursor, seek(k,s), entry under the cursor
+//!                                                 ([0,0,0,0] = not valid)
+//!   Walk     {ok, steps:[[m,k,s, rk,rs,ro,rv]...]} fresh cursor; moves 0 first, 1 last,
+//!                                                 2 seek(k,s), 3 next, 4 prev (next/prev only
+//!                                                 when valid); entry under the cursor after it
+//!   Gets     {list:[{k,s,kind,v}...]}     Table::get(k, s): kind value|deleted|notinfile|error
+//!   BigCheck {what, n, bad, hidden, first, ok}  digest for tables too big to log: the DRIVER compared
+//!                                         n observations with its own copy of the run
+//!   End      {}                           last line of every file
+//!
+//! Key ids are the 1-based ranks of the run's key universe in byte order (so that the
+//! specification's order on ids is the byte order), value ids identify the exact byte string that
+//! was put in (-2 = bytes that were never put in, -1 = a key outside the universe).
 
+use rand::rngs::StdRng;
+use rand::seq::SliceRandom;
+use rand::{Rng, SeedableRng};
+use raindb::verif::{build_table, TableGet, VTable, VTableIter};
+use raindb::{DbOptions, FilterPolicy};
+use serde_json::{json, Value};
 use std::collections::HashMap;
+use std::path::PathBuf;
+use std::sync::Arc;
 
-pub fn cmd(_m: &HashMap<String, String>) -> i32 {
-    eprintln!("tablefmt driver not implemented yet");
-    2
+use crate::common::OptSet;
+use crate::simfs::SimFs;
+use crate::universe::{key_catalogue, tiny_values, Universe, TINY_BASE};
+
+pub type Raw = (Vec<u8>, u64, u8, Vec<u8>);
+
+pub const BLOCK_SIZES: [usize; 6] = [1, 16, 64, 256, 4096, 1 << 22];
+const MAX_LINES_PER_FILE: usize = 14_000;
+
+// ---------------------------------------------------------------------------------------------
+// key / value universe of one run
+// ---------------------------------------------------------------------------------------------
+
+/// The adversarial key catalogue of `universe.rs` plus shapes that matter for table files:
+/// keys longer than a 4 KiB block, long runs of 0x00 / 0xff, long shared prefixes.
+pub fn table_key_catalogue(rng: &mut StdRng) -> Vec<Vec<u8>> {
+    let mut cat = key_catalogue();
+    cat.push(vec![0x00; 8]);
+    cat.push(vec![0x00; 9]);
+    cat.push(vec![0xff; 8]);
+    cat.push(vec![0xff; 9]);
+    cat.push(vec![0xff, 0xff, 0xfe]);
+    let mut p = vec![b'p'; 200];
+    cat.push(p.clone());
+    p.push(0x00);
+    cat.push(p.clone());
+    p.pop();
+    p.push(0xff);
+    cat.push(p.clone());
+    p.push(0xff);
+    cat.push(p);
+    let huge = vec![b'L'; 5000];
+    let mut huge2 = huge.clone();
+    huge2.push(b'!');
+    let mut huge3 = vec![b'L'; 4999];
+    huge3.push(b'M');
+    cat.push(huge);
+    cat.push(huge2);
+    cat.push(huge3);
+    // keys that differ only in their last byte / that are prefixes of each other
+    cat.push(b"zebra\x00".to_vec());
+    cat.push(b"zebr".to_vec());
+    for _ in 0..4 {
+        let n = rng.gen_range(1..12);
+        cat.push((0..n).map(|_| rng.gen::<u8>()).collect());
+    }
+    cat.sort();
+    cat.dedup();
+    cat
+}
+
+pub struct Values {
+    next: i64,
+    by_bytes: HashMap<Vec<u8>, i64>,
+}
+
+impl Values {
+    pub fn new() -> Self {
+        let mut by_bytes = HashMap::new();
+        for (i, t) in tiny_values().into_iter().enumerate() {
+            by_bytes.insert(t, TINY_BASE + i as i64);
+        }
+        Values { next: 1, by_bytes }
+    }
+
+    /// A fresh value of `len` bytes (len >= 8) with its id.
+    pub fn fresh(&mut self, len: usize, compressible: bool) -> (i64, Vec<u8>) {
+        let vid = self.next;
+        self.next += 1;
+        if self.next == TINY_BASE {
+            self.next = TINY_BASE + 100;
+        }
+        let b = Universe::make_value(vid, len.max(8), compressible);
+        self.by_bytes.insert(b.clone(), vid);
+        (vid, b)
+    }
+
+    pub fn tiny(&self, i: usize) -> (i64, Vec<u8>) {
+        (TINY_BASE + i as i64, tiny_values()[i].clone())
+    }
+
+    /// Id of bytes that came back: the id they were put in with, or -2.
+    pub fn id_of(&self, bytes: &[u8]) -> i64 {
+        *self.by_bytes.get(bytes).unwrap_or(&-2)
+    }
+}
+
+/// An entry as ids (what is logged) plus the bytes (what is put into the table).
+#[derive(Clone)]
+pub struct Ent {
+    pub k: i64,
+    pub s: u64,
+    pub o: u8,
+    pub v: i64,
+    pub value: Vec<u8>,
+}
+
+pub fn ents_json(es: &[Ent]) -> Value {
+    Value::Array(es.iter().map(|e| json!([e.k, e.s, e.o, e.v])).collect())
+}
+
+/// Generate a sorted run over the universe: some keys absent, 1..many versions per present key
+/// (distinct sequence numbers with gaps, newest first), puts and deletes, values from empty to
+/// multi-block.
+pub fn gen_run(rng: &mut StdRng, u: &Universe, vals: &mut Values, max_big_values: usize) -> Vec<Ent> {
+    let mut out = vec![];
+    let mut bigs = 0;
+    let p_present = *[0.3, 0.6, 0.9, 1.0].choose(rng).unwrap();
+    let many_key = if rng.gen_bool(0.3) {
+        rng.gen_range(1..=u.n() as i64)
+    } else {
+        0
+    };
+    for k in 1..=u.n() as i64 {
+        if !rng.gen_bool(p_present) && k != many_key {
+            continue;
+        }
+        let nver = if k == many_key {
+            rng.gen_range(12..60)
+        } else {
+            match rng.gen_range(0..100) {
+                0..=49 => 1,
+                50..=79 => rng.gen_range(2..4),
+                _ => rng.gen_range(4..9),
+            }
+        };
+        // distinct sequence numbers, newest first, with gaps so that bounds in between exist
+        let mut s: u64 = rng.gen_range(1..6) + (nver as u64) * 3;
+        for _ in 0..nver {
+            let o: u8 = if rng.gen_bool(0.25) { 0 } else { 1 };
+            let (v, value) = if o == 0 {
+                (0, vec![])
+            } else {
+                match rng.gen_range(0..100) {
+                    0..=7 => vals.tiny(0), // empty value
+                    8..=17 => vals.tiny(rng.gen_range(1..tiny_values().len())),
+                    18..=67 => vals.fresh(rng.gen_range(8..40), rng.gen_bool(0.5)),
+                    68..=92 => vals.fresh(rng.gen_range(40..400), rng.gen_bool(0.5)),
+                    _ => {
+                        if bigs < max_big_values {
+                            bigs += 1;
+                            // larger than one 4 KiB block, sometimes larger than several
+                            vals.fresh(rng.gen_range(4200..14000), rng.gen_bool(0.5))
+                        } else {
+                            vals.fresh(rng.gen_range(400..1200), rng.gen_bool(0.5))
+                        }
+                    }
+                }
+            };
+            out.push(Ent { k, s, o, v, value });
+            let gap = rng.gen_range(1..4);
+            if s <= gap {
+                break;
+            }
+            s -= gap;
+        }
+    }
+    out
+}
+
+/// Seek / get targets: for every key of the universe (present or absent) the bounds around
+/// every version.
+pub fn targets(rng: &mut StdRng, u: &Universe, run: &[Ent]) -> Vec<(i64, u64)> {
+    let mut t = vec![];
+    let maxs = run.iter().map(|e| e.s).max().unwrap_or(1);
+    for k in 1..=u.n() as i64 {
+        let vers: Vec<u64> = run.iter().filter(|e| e.k == k).map(|e| e.s).collect();
+        let mut ss = vec![0u64, maxs + 5];
+        let pick: Vec<u64> = if vers.len() > 14 {
+            let mut v: Vec<u64> = vers[..6].to_vec();
+            v.extend_from_slice(&vers[vers.len() - 4..]);
+            for _ in 0..4 {
+                v.push(*vers.choose(rng).unwrap());
+            }
+            v
+        } else {
+            vers.clone()
+        };
+        for s in pick {
+            ss.push(s);
+            ss.push(s + 1);
+            if s > 0 {
+                ss.push(s - 1);
+            }
+        }
+        ss.sort_unstable();
+        ss.dedup();
+        for s in ss {
+            t.push((k, s));
+        }
+    }
+    t
+}
+
+// ---------------------------------------------------------------------------------------------
+// driving the real table code
+// ---------------------------------------------------------------------------------------------
+
+pub fn table_options(fs: &SimFs, block: usize, policy: Option<Arc<dyn FilterPolicy>>) -> DbOptions {
+    let o = OptSet {
+        memtable: 1 << 20,
+        file: 1 << 21,
+        block,
+        reuse: false,
+    };
+    let mut opts = o.to_options("/t", fs);
+    opts.max_block_size = block;
+    if let Some(p) = policy {
+        opts.filter_policy = p;
+    }
+    opts
+}
+
+fn panic_text(p: Box<dyn std::any::Any + Send>) -> String {
+    if let Some(s) = p.downcast_ref::<&str>() {
+        format!("panic: {}", s)
+    } else if let Some(s) = p.downcast_ref::<String>() {
+        format!("panic: {}", s)
+    } else {
+        "panic".to_string()
+    }
+}
+
+/// Build the table and open it with the real reader; Err = what failed.
+pub fn build_and_open(opts: &DbOptions, number: u64, raw: &[Raw]) -> Result<VTable, String> {
+    let r = std::panic::catch_unwind(std::panic::AssertUnwindSafe(|| {
+        build_table(opts, number, raw).map_err(|e| format!("build: {}", e))?;
+        VTable::open(opts, number).map_err(|e| format!("open: {}", e))
+    }));
+    match r {
+        Ok(x) => x,
+        Err(p) => Err(panic_text(p)),
+    }
+}
+
+pub struct Ctx<'a> {
+    pub u: &'a Universe,
+    pub vals: &'a Values,
+}
+
+impl<'a> Ctx<'a> {
+    pub fn cur_json(&self, it: &VTableIter) -> [i64; 4] {
+        if !it.is_valid() {
+            return [0, 0, 0, 0];
+        }
+        match it.current() {
+            None => [-1, -1, -1, -1], // valid but no entry: never equal to anything expected
+            Some((k, s, o, v)) => {
+                let vid = if o == 1 { self.vals.id_of(&v) } else if v.is_empty() { 0 } else { -2 };
+                [self.u.key_id(&k), s as i64, o as i64, vid]
+            }
+        }
+    }
+}
+
+fn guarded<T>(f: impl FnOnce() -> T) -> Result<T, String> {
+    std::panic::catch_unwind(std::panic::AssertUnwindSafe(f)).map_err(panic_text)
+}
+
+pub fn obs_iter(ctx: &Ctx, t: &VTable, n: usize, fwd: bool) -> Value {
+    let r = guarded(|| {
+        let mut it = t.iter();
+        let mut res = vec![];
+        let st = if fwd { it.seek_to_first() } else { it.seek_to_last() };
+        if let Err(e) = st {
+            return (false, res, e);
+        }
+        while it.is_valid() {
+            res.push(ctx.cur_json(&it));
+            if res.len() > n + 5 {
+                return (false, res, "iteration does not terminate".to_string());
+            }
+            if fwd {
+                it.next();
+            } else {
+                it.prev();
+            }
+        }
+        (true, res, String::new())
+    });
+    let name = if fwd { "IterFwd" } else { "IterBwd" };
+    match r {
+        Ok((ok, res, err)) => json!({"e": name, "ok": ok, "res": res, "err": err}),
+        Err(p) => json!({"e": name, "ok": false, "res": [], "err": p}),
+    }
+}
+
+pub fn obs_seeks(ctx: &Ctx, t: &VTable, tg: &[(i64, u64)]) -> Value {
+    let r = guarded(|| {
+        let mut list = vec![];
+        for &(k, s) in tg {
+            let mut it = t.iter();
+            if let Err(e) = it.seek(ctx.u.key(k), s) {
+                return (false, list, e);
+            }
+            let c = ctx.cur_json(&it);
+            list.push([k, s as i64, c[0], c[1], c[2], c[3]]);
+        }
+        (true, list, String::new())
+    });
+    match r {
+        Ok((ok, list, err)) => json!({"e": "Seeks", "ok": ok, "list": list, "err": err}),
+        Err(p) => json!({"e": "Seeks", "ok": false, "list": [], "err": p}),
+    }
+}
+
+pub fn obs_walk(ctx: &Ctx, t: &VTable, rng: &mut StdRng, tg: &[(i64, u64)], len: usize) -> Value {
+    // the moves are chosen while walking (next/prev only on a valid cursor)
+    let r = guarded(|| {
+        let mut it = t.iter();
+        let mut steps = vec![];
+        for i in 0..len {
+            let valid = it.is_valid();
+            let m = if i == 0 || !valid {
+                *[0, 1, 2, 2].choose(rng).unwrap()
+            } else {
+                *[0, 1, 2, 2, 3, 3, 3, 3, 4, 4, 4, 4].choose(rng).unwrap()
+            };
+            let (mut k, mut s) = (0i64, 0u64);
+            let st = match m {
+                0 => it.seek_to_first(),
+                1 => it.seek_to_last(),
+                2 => {
+                    let t = tg.choose(rng).unwrap();
+                    k = t.0;
+                    s = t.1;
+                    it.seek(ctx.u.key(k), s)
+                }
+                3 => {
+                    it.next();
+                    Ok(())
+                }
+                _ => {
+                    it.prev();
+                    Ok(())
+                }
+            };
+            if let Err(e) = st {
+                return (false, steps, e);
+            }
+            let c = ctx.cur_json(&it);
+            steps.push([m as i64, k, s as i64, c[0], c[1], c[2], c[3]]);
+        }
+        (true, steps, String::new())
+    });
+    match r {
+        Ok((ok, steps, err)) => json!({"e": "Walk", "ok": ok, "steps": steps, "err": err}),
+        Err(p) => json!({"e": "Walk", "ok": false, "steps": [], "err": p}),
+    }
+}
+
+pub fn get_json(ctx: &Ctx, t: &VTable, k: i64, s: u64) -> Value {
+    let r = guarded(|| t.get(ctx.u.key(k), s));
+    match r {
+        Ok(TableGet::Value(b)) => json!({"k": k, "s": s, "kind": "value", "v": ctx.vals.id_of(&b)}),
+        Ok(TableGet::Deleted) => json!({"k": k, "s": s, "kind": "deleted", "v": 0}),
+        Ok(TableGet::NotInFile) => json!({"k": k, "s": s, "kind": "notinfile", "v": 0}),
+        Ok(TableGet::Error(e)) => json!({"k": k, "s": s, "kind": "error", "v": 0, "err": e}),
+        Err(p) => json!({"k": k, "s": s, "kind": "error", "v": 0, "err": p}),
+    }
+}
+
+pub fn obs_gets(ctx: &Ctx, t: &VTable, tg: &[(i64, u64)]) -> Value {
+    let list: Vec<Value> = tg.iter().map(|&(k, s)| get_json(ctx, t, k, s)).collect();
+    json!({"e": "Gets", "list": list})
+}
+
+/// Build one table from `run` with `block` and log the Table event; returns the opened table.
+pub fn table_event(
+    u: &Universe,
+    run: &[Ent],
+    block: usize,
+    policy: Option<Arc<dyn FilterPolicy>>,
+    number: u64,
+    lines: &mut Vec<Value>,
+    extra: Value,
+) -> Option<VTable> {
+    let fs = SimFs::new("/t");
+    let opts = table_options(&fs, block, policy);
+    let raw: Vec<Raw> = run
+        .iter()
+        .map(|e| (u.key(e.k).clone(), e.s, e.o, e.value.clone()))
+        .collect();
+    let r = build_and_open(&opts, number, &raw);
+    let (ok, err) = match &r {
+        Ok(_) => (true, String::new()),
+        Err(e) => (false, e.clone()),
+    };
+    let mut ev = json!({"e": "Table", "block": block.min(i32::MAX as usize), "n": run.len(), "ok": ok,
+                        "big": false, "err": err, "ents": ents_json(run)});
+    if let (Value::Object(a), Value::Object(b)) = (&mut ev, extra) {
+        for (k, v) in b {
+            a.insert(k, v);
+        }
+    }
+    lines.push(ev);
+    r.ok()
+}
+
+// ---------------------------------------------------------------------------------------------
+// big tables: checked by the driver against its own copy (digest only)
+// ---------------------------------------------------------------------------------------------
+
+fn icmp(a: &(Vec<u8>, u64), b: &(Vec<u8>, u64)) -> std::cmp::Ordering {
+    a.0.cmp(&b.0).then(b.1.cmp(&a.1))
+}
+
+fn big_run(rng: &mut StdRng, n: usize) -> Vec<Raw> {
+    let mut keys: Vec<Vec<u8>> = vec![];
+    let prefixes: Vec<Vec<u8>> = vec![vec![], b"user/".to_vec(), vec![0xff, 0xff], vec![b'k'; 30], vec![0x00]];
+    while keys.len() < n {
+        let mut k = prefixes.choose(rng).unwrap().clone();
+        let m = rng.gen_range(0..10);
+        for _ in 0..m {
+            k.push(*[0x00u8, 0x01, b'a', b'b', 0x7f, 0xfe, 0xff].choose(rng).unwrap_or(&0));
+        }
+        if rng.gen_bool(0.5) {
+            k.extend_from_slice(&rng.gen::<u32>().to_be_bytes());
+        }
+        keys.push(k);
+    }
+    keys.sort();
+    keys.dedup();
+    let mut out: Vec<Raw> = vec![];
+    let mut vid: u32 = 0;
+    for k in keys {
+        let nver = match rng.gen_range(0..10) {
+            0..=6 => 1,
+            7..=8 => 2,
+            _ => rng.gen_range(3..7),
+        };
+        let mut s: u64 = rng.gen_range(1..50) + nver * 3;
+        for _ in 0..nver {
+            let o: u8 = if rng.gen_bool(0.2) { 0 } else { 1 };
+            let value = if o == 0 {
+                vec![]
+            } else {
+                vid += 1;
+                let len = *[0usize, 1, 9, 30, 120, 700].choose(rng).unwrap();
+                let mut v = vid.to_le_bytes().to_vec();
+                v.resize(len.max(4), (vid & 0xff) as u8);
+                if len == 0 {
+                    v.clear();
+                }
+                v
+            };
+            out.push((k.clone(), s, o, value));
+            s -= rng.gen_range(1..3);
+        }
+        if out.len() >= n {
+            break;
+        }
+    }
+    out
+}
+
+fn big_expected_seek<'a>(run: &'a [Raw], k: &[u8], s: u64) -> Option<&'a Raw> {
+    let t = (k.to_vec(), s);
+    let i = run.partition_point(|e| icmp(&(e.0.clone(), e.1), &t) == std::cmp::Ordering::Less);
+    run.get(i)
+}
+
+fn big_expected_get(run: &[Raw], k: &[u8], s: u64) -> TableGet {
+    match big_expected_seek(run, k, s) {
+        Some(e) if e.0.as_slice() == k => {
+            if e.2 == 0 {
+                TableGet::Deleted
+            } else {
+                TableGet::Value(e.3.clone())
+            }
+        }
+        _ => TableGet::NotInFile,
+    }
+}
+
+fn big_check(lines: &mut Vec<Value>, what: &str, n: usize, bad: usize, first: usize, ok: bool, err: &str) {
+    big_check_h(lines, what, n, bad, 0, first, ok, err);
+}
+
+/// `hidden` = lookups that answered "not in this file" for an entry the run holds
+#[allow(clippy::too_many_arguments)]
+fn big_check_h(lines: &mut Vec<Value>, what: &str, n: usize, bad: usize, hidden: usize, first: usize, ok: bool, err: &str) {
+    lines.push(json!({"e": "BigCheck", "what": what, "n": n, "bad": bad, "hidden": hidden, "first": first,
+                      "ok": ok, "err": err}));
+}
+
+pub fn big_table(
+    rng: &mut StdRng,
+    n: usize,
+    block: usize,
+    policy: Option<Arc<dyn FilterPolicy>>,
+    number: u64,
+    lines: &mut Vec<Value>,
+) {
+    let run = big_run(rng, n);
+    let fs = SimFs::new("/t");
+    let opts = table_options(&fs, block, policy);
+    let r = build_and_open(&opts, number, &run);
+    let (ok, err) = match &r {
+        Ok(_) => (true, String::new()),
+        Err(e) => (false, e.clone()),
+    };
+    lines.push(json!({"e": "Table", "block": block.min(i32::MAX as usize), "n": run.len(), "ok": ok,
+                      "big": true, "err": err, "ents": []}));
+    let t = match r {
+        Ok(t) => t,
+        Err(_) => return,
+    };
+    let same = |it: &VTableIter, want: Option<&Raw>| -> bool {
+        match (it.is_valid(), want) {
+            (false, None) => true,
+            (true, Some(w)) => it.current().map_or(false, |c| &c == w),
+            _ => false,
+        }
+    };
+    // full iteration, both directions
+    for fwd in [true, false] {
+        let r = guarded(|| {
+            let mut it = t.iter();
+            let st = if fwd { it.seek_to_first() } else { it.seek_to_last() };
+            if let Err(e) = st {
+                return (0, 0, 0, false, e);
+            }
+            let (mut i, mut bad, mut first) = (0usize, 0usize, 0usize);
+            while it.is_valid() && i < run.len() + 5 {
+                let want = if fwd { run.get(i) } else { run.len().checked_sub(i + 1).and_then(|j| run.get(j)) };
+                if !same(&it, want) {
+                    bad += 1;
+                    if first == 0 {
+                        first = i + 1;
+                    }
+                }
+                i += 1;
+                if fwd {
+                    it.next();
+                } else {
+                    it.prev();
+                }
+            }
+            if i != run.len() {
+                bad += 1;
+                if first == 0 {
+                    first = i + 1;
+                }
+            }
+            (i, bad, first, true, String::new())
+        });
+        let what = if fwd { "iterfwd" } else { "iterbwd" };
+        match r {
+            Ok((i, bad, first, ok, e)) => big_check(lines, what, i, bad, first, ok, &e),
+            Err(p) => big_check(lines, what, 0, 1, 0, false, &p),
+        }
+    }
+    // targets: exact entries, bounds around them, absent keys
+    let mut tg: Vec<(Vec<u8>, u64)> = vec![];
+    for _ in 0..300 {
+        let e = run.choose(rng).unwrap();
+        let s = match rng.gen_range(0..4) {
+            0 => e.1,
+            1 => e.1 + 1,
+            2 => e.1.saturating_sub(1),
+            _ => rng.gen_range(0..80),
+        };
+        tg.push((e.0.clone(), s));
+        if rng.gen_bool(0.3) {
+            let mut k = e.0.clone();
+            match rng.gen_range(0..3) {
+                0 => k.push(0x00),
+                1 => {
+                    k.pop();
+                }
+                _ => k.push(0xff),
+            }
+            tg.push((k, rng.gen_range(0..80)));
+        }
+    }
+    tg.push((vec![], 0));
+    tg.push((vec![0xff; 12], 100));
+    // seeks
+    let r = guarded(|| {
+        let (mut bad, mut first) = (0usize, 0usize);
+        for (i, (k, s)) in tg.iter().enumerate() {
+            let mut it = t.iter();
+            if let Err(e) = it.seek(k, *s) {
+                return (i, bad + 1, i + 1, false, e);
+            }
+            if !same(&it, big_expected_seek(&run, k, *s)) {
+                bad += 1;
+                if first == 0 {
+                    first = i + 1;
+                }
+            }
+        }
+        (tg.len(), bad, first, true, String::new())
+    });
+    match r {
+        Ok((n, bad, first, ok, e)) => big_check(lines, "seek", n, bad, first, ok, &e),
+        Err(p) => big_check(lines, "seek", 0, 1, 0, false, &p),
+    }
+    // a long random walk
+    let r = guarded(|| {
+        let mut it = t.iter();
+        let mut pos: Option<usize> = None; // index into run
+        let (mut bad, mut first) = (0usize, 0usize);
+        let steps = 600;
+        for i in 0..steps {
+            let m = if pos.is_none() { rng.gen_range(0..3) } else { *[0, 1, 2, 3, 3, 3, 3, 4, 4, 4, 4].choose(rng).unwrap() };
+            match m {
+                0 => {
+                    let _ = it.seek_to_first();
+                    pos = if run.is_empty() { None } else { Some(0) };
+                }
+                1 => {
+                    let _ = it.seek_to_last();
+                    pos = run.len().checked_sub(1);
+                }
+                2 => {
+                    let (k, s) = tg.choose(rng).unwrap();
+                    let _ = it.seek(k, *s);
+                    let t = (k.clone(), *s);
+                    let j = run.partition_point(|e| icmp(&(e.0.clone(), e.1), &t) == std::cmp::Ordering::Less);
+                    pos = if j < run.len() { Some(j) } else { None };
+                }
+                3 => {
+                    it.next();
+                    pos = pos.and_then(|p| if p + 1 < run.len() { Some(p + 1) } else { None });
+                }
+                _ => {
+                    it.prev();
+                    pos = pos.and_then(|p| p.checked_sub(1));
+                }
+            }
+            if !same(&it, pos.and_then(|p| run.get(p))) {
+                bad += 1;
+                if first == 0 {
+                    first = i + 1;
+                }
+                // resynchronise so that one slip is counted once
+                let _ = it.seek_to_first();
+                pos = if run.is_empty() { None } else { Some(0) };
+            }
+        }
+        (steps, bad, first)
+    });
+    match r {
+        Ok((n, bad, first)) => big_check(lines, "walk", n, bad, first, true, ""),
+        Err(p) => big_check(lines, "walk", 0, 1, 0, false, &p),
+    }
+    // get for every stored entry (must never be "not in file") and for the other targets
+    let r = guarded(|| {
+        let (mut bad, mut hidden, mut first) = (0usize, 0usize, 0usize);
+        for (i, e) in run.iter().enumerate() {
+            let got = t.get(&e.0, e.1);
+            let want = big_expected_get(&run, &e.0, e.1);
+            if got != want {
+                bad += 1;
+                if got == TableGet::NotInFile {
+                    hidden += 1;
+                }
+                if first == 0 {
+                    first = i + 1;
+                }
+            }
+        }
+        (run.len(), bad, hidden, first)
+    });
+    match r {
+        Ok((n, bad, hidden, first)) => big_check_h(lines, "getpresent", n, bad, hidden, first, true, ""),
+        Err(p) => big_check_h(lines, "getpresent", 0, 1, 0, 0, false, &p),
+    }
+    let r = guarded(|| {
+        let (mut bad, mut hidden, mut first) = (0usize, 0usize, 0usize);
+        for (i, (k, s)) in tg.iter().enumerate() {
+            let got = t.get(k, *s);
+            let want = big_expected_get(&run, k, *s);
+            if got != want {
+                bad += 1;
+                if got == TableGet::NotInFile {
+                    hidden += 1;
+                }
+                if first == 0 {
+                    first = i + 1;
+                }
+            }
+        }
+        (tg.len(), bad, hidden, first)
+    });
+    match r {
+        Ok((n, bad, hidden, first)) => big_check_h(lines, "get", n, bad, hidden, first, true, ""),
+        Err(p) => big_check_h(lines, "get", 0, 1, 0, 0, false, &p),
+    }
+}
+
+// ---------------------------------------------------------------------------------------------
+// one run
+// ---------------------------------------------------------------------------------------------
+
+#[derive(Clone, Debug, serde::Serialize, serde::Deserialize)]
+pub struct TableCfg {
+    pub seed: u64,
+    /// sorted runs per run of the driver; each is built once per block size
+    pub tables: usize,
+    /// big (digest-checked) tables per run
+    pub big: usize,
+    pub walks: usize,
+    /// also build the empty run (raindb itself never writes an empty table)
+    pub empty: bool,
+}
+
+pub fn run_tables(cfg: &TableCfg, run_no: u64) -> (Vec<Value>, usize) {
+    let mut rng = StdRng::seed_from_u64(cfg.seed.wrapping_mul(0x9E3779B97F4A7C15) ^ 0x7ab1e);
+    let mut cat = table_key_catalogue(&mut rng);
+    cat.shuffle(&mut rng);
+    let nk = rng.gen_range(5..=14).min(cat.len());
+    // the edge keys are in most universes
+    let mut chosen: Vec<Vec<u8>> = cat[..nk].to_vec();
+    if rng.gen_bool(0.7) {
+        chosen.push(vec![]);
+    }
+    if rng.gen_bool(0.5) {
+        chosen.push(vec![0xff; 9]);
+    }
+    let u = Universe::from_keys(chosen);
+    let mut vals = Values::new();
+    let mut lines = vec![json!({"e": "Reset", "run": run_no, "seed": cfg.seed, "tag": "", "nk": u.n(),
+                                "driver": "tablefmt"})];
+    let mut tables = 0usize;
+    let mut number = 1u64;
+    for ti in 0..cfg.tables {
+        let run = if ti == 0 && cfg.empty {
+            vec![]
+        } else {
+            let mut r = gen_run(&mut rng, &u, &mut vals, 2);
+            if r.is_empty() {
+                // the empty run is only built on request
+                let (v, value) = vals.fresh(12, true);
+                r.push(Ent { k: rng.gen_range(1..=u.n() as i64), s: 3, o: 1, v, value });
+            }
+            r
+        };
+        let tg = targets(&mut rng, &u, &run);
+        for &block in BLOCK_SIZES.iter() {
+            number += 1;
+            tables += 1;
+            let t = table_event(&u, &run, block, None, number, &mut lines, json!({}));
+            let t = match t {
+                Some(t) => t,
+                None => continue,
+            };
+            let ctx = Ctx { u: &u, vals: &vals };
+            lines.push(obs_iter(&ctx, &t, run.len(), true));
+            lines.push(obs_iter(&ctx, &t, run.len(), false));
+            lines.push(obs_seeks(&ctx, &t, &tg));
+            for _ in 0..cfg.walks {
+                let len = rng.gen_range(4..16);
+                lines.push(obs_walk(&ctx, &t, &mut rng, &tg, len));
+            }
+            lines.push(obs_gets(&ctx, &t, &tg));
+        }
+    }
+    for _ in 0..cfg.big {
+        let n = *[1000usize, 2500, 6000, 10000].choose(&mut rng).unwrap();
+        for &block in [64usize, 4096, 1 << 22].iter() {
+            number += 1;
+            tables += 1;
+            big_table(&mut rng, n, block, None, number, &mut lines);
+        }
+    }
+    (lines, tables)
+}
+
+// ---------------------------------------------------------------------------------------------
+// output: trace files (split between runs), results.json, one replay file per run
+// ---------------------------------------------------------------------------------------------
+
+pub struct Out {
+    dir: PathBuf,
+    chunk: usize,
+    lines: Vec<Value>,
+    pending: Vec<usize>, // indexes into results of the runs in the current file
+    pub results: Vec<Value>,
+}
+
+impl Out {
+    pub fn new(dir: PathBuf) -> Self {
+        std::fs::create_dir_all(&dir).unwrap();
+        Out { dir, chunk: 0, lines: vec![], pending: vec![], results: vec![] }
+    }
+
+    fn path(&self) -> PathBuf {
+        self.dir.join(format!("trace_{:04}.ndjson", self.chunk))
+    }
+
+    fn flush(&mut self) {
+        if self.lines.is_empty() {
+            return;
+        }
+        self.lines.push(json!({"e": "End"}));
+        let p = self.path();
+        crate::trace::write_ndjson(&p, &self.lines).unwrap();
+        for &i in &self.pending {
+            self.results[i]["trace"] = json!(p.to_string_lossy());
+        }
+        self.lines.clear();
+        self.pending.clear();
+        self.chunk += 1;
+    }
+
+    /// Append one run (its first line is the Reset event).
+    pub fn add_run(&mut self, run_lines: Vec<Value>, mut result: Value, replay: Value) {
+        if !self.lines.is_empty() && self.lines.len() + run_lines.len() > MAX_LINES_PER_FILE {
+            self.flush();
+        }
+        let seed = result["seed"].as_u64().unwrap_or(0);
+        let rpath = self.dir.join(format!("replay_{}.json", seed));
+        std::fs::write(&rpath, serde_json::to_string(&replay).unwrap()).unwrap();
+        result["replay"] = json!(rpath.to_string_lossy());
+        result["events"] = json!(run_lines.len());
+        self.results.push(result);
+        self.pending.push(self.results.len() - 1);
+        self.lines.extend(run_lines);
+    }
+
+    pub fn finish(&mut self) {
+        self.flush();
+        std::fs::write(
+            self.dir.join("results.json"),
+            serde_json::to_string_pretty(&json!({"runs": self.results, "aborted": false})).unwrap(),
+        )
+        .unwrap();
+    }
+}
+
+pub fn cmd(m: &HashMap<String, String>) -> i32 {
+    let out = PathBuf::from(m.get("out").cloned().unwrap_or_else(|| "/verif/out/c13/tablefmt".into()));
+    let seed0: u64 = crate::arg_of(m, "seed", 1);
+    let runs: u64 = crate::arg_of(m, "runs", 4);
+    let mut cfgs: Vec<TableCfg> = (seed0..seed0 + runs)
+        .map(|seed| TableCfg {
+            seed,
+            tables: crate::arg_of(m, "tables", 12),
+            big: crate::arg_of(m, "big", 1),
+            walks: crate::arg_of(m, "walks", 3),
+            empty: m.contains_key("empty"),
+        })
+        .collect();
+    if let Some(p) = m.get("replay") {
+        let v: Value = serde_json::from_str(&std::fs::read_to_string(p).expect("replay file")).unwrap();
+        cfgs = vec![serde_json::from_value(v["cfg"].clone()).expect("replay cfg")];
+    }
+    let mut o = Out::new(out);
+    for (i, cfg) in cfgs.iter().enumerate() {
+        let (lines, tables) = run_tables(cfg, i as u64 + 1);
+        let panics = crate::common::take_panics();
+        o.add_run(
+            lines,
+            json!({"seed": cfg.seed, "status": "ok", "tables": tables, "panics": panics.len()}),
+            json!({"driver": "tablefmt", "seed": cfg.seed, "cfg": cfg}),
+        );
+    }
+    o.finish();
+    0
 }
